@@ -11,7 +11,7 @@
        decodeHuffman returns EEndInput with s unchanged, flush_ov does nothing,
        ov s2 = mkOV 5 0 0 0 <> ov0.
    (The engine never produces such a state: every path that parks literals either flushes them
-   or rolls back, both with set_wov 0 0.)  Both refutations are proved below
+   or rolls back, both with set_wov 0 0.)  Both refutations are proved in EngineRefineHuffCex.v
    (decodeHuffman_refine_statement_false, decodeHuffman_refine2_statement_false).
 
    What is proved:
@@ -19,12 +19,14 @@
      olen st' = olen st + (w2 - w)) where `ov s2 = ov0` is replaced by
      `ov s2 = ov0 \/ ov s2 = mkOV (writeOverflowLits (ov s)) 0 0 0`;
    - decodeHuffman_refine2_partial / decodeHuffman_refine_partial: literally the two statements
-     with the one extra hypothesis writeOverflowLits (ov s) = 0. *)
+     with the one extra hypothesis writeOverflowLits (ov s) = 0;
+   - decodeHuffman_refine3 : decodeHuffman_refine3_statement (RModel/EngineRefineSpecBlock3.v,
+     the corrected statement = decodeHuffman_refine2_partial). *)
 From Coq Require Import List NArith ZArith Bool Lia ZifyBool ZifyNat ZifyN.
 From Verif Require Import Bits Huffman HuffmanSpec Inflate InflateSpec InflateMono.
 From Verif Require Import Base EngineTables Engine EngineRefineSpec EngineRefineSpecBlock
-                          EngineRefineSpecBlock2 EngineRefineBits EngineRefineBridge.
-From Verif Require HuffmanProofs SymbolsProofs EngineFacts EngineRefineStatic.
+                          EngineRefineSpecBlock2 EngineRefineSpecBlock3 EngineRefineBits EngineRefineBridge.
+From Verif Require HuffmanProofs SymbolsProofs EngineFacts.
 From Verif Require Import EngineRefineHuffBase EngineRefineHuffSyms EngineRefineHuffDist
                           EngineRefineHuffInner EngineRefineHuffOuter.
 Import ListNotations.
@@ -259,69 +261,11 @@ Proof.
   exists st', bs', ended. split; [exact C1|]. split; [exact C2|exact C].
 Qed.
 
-(* ---------------------------------------------------------------- the statements as written
-   are false *)
-Definition cex_state : inflate :=
-  mkInflate br0 true (mkOV 5 0 0 0) static_tabs phaseHeaderDecoded 0 0 0 [] dyn0 0%Z.
-Definition cex_ost : ostate := mkost [] 0 0 0 [].
-
-Lemma cex_hyps : forall lt dt,
-  mktrie 15 fixed_lit_lens = Some lt -> mktrie 15 fixed_dist_lens = Some dt ->
-  br_wf (rd cex_state) /\ (0 <= r_len (rd cex_state))%Z /\
-  phase cex_state = phaseHeaderDecoded /\ (bfinal cex_state = 0 \/ bfinal cex_state = 1) /\
-  writeOverflowLen (ov cex_state) = 0 /\ tabs_for (tb cex_state) lt dt /\
-  win_rel aempty 0 cex_ost /\ 0 <= outLen.
-Proof.
-  intros lt dt Hlt Hdt.
-  split.
-  { unfold br_wf, cex_state, br0. cbn [rd r_inlen r_in r_len r_bits length].
-    split; [reflexivity|]. split; [lia|]. split; [reflexivity|]. split; [constructor|].
-    intros i Hi. rewrite N.bits_0 in Hi. discriminate. }
-  split; [cbn; lia|]. split; [reflexivity|]. split; [left; reflexivity|]. split; [reflexivity|].
-  split.
-  { exists fixed_lit_lens, fixed_dist_lens. split; [exact Hlt|]. split; [exact Hdt|].
-    split; [exact EngineRefineStatic.static_lit_tab_ok|exact EngineRefineStatic.static_dist_tab_ok]. }
-  split.
-  { unfold win_rel, cex_ost. cbn [oavail olen rout length]. split; [reflexivity|]. split; [reflexivity|].
-    split; [lia|]. split; [left; reflexivity|]. intros i Hi. lia. }
-  unfold outLen. lia.
-Qed.
-
-Lemma cex_run :
-  let '(s', out', w', err) := decodeHuffman cex_state aempty 0 in
-  let '(s2, out2, w2) := flush_ov s' out' w' in ov s2 = mkOV 5 0 0 0.
-Proof. vm_compute. reflexivity. Qed.
-
-Theorem decodeHuffman_refine_statement_false : ~ decodeHuffman_refine_statement.
-Proof.
-  intros H.
-  destruct (mktrie 15 fixed_lit_lens) as [lt|] eqn:Hlt; [|vm_compute in Hlt; discriminate].
-  destruct (mktrie 15 fixed_dist_lens) as [dt|] eqn:Hdt; [|vm_compute in Hdt; discriminate].
-  destruct (cex_hyps lt dt Hlt Hdt) as (P1 & P2 & P3 & P4 & P5 & P6 & P7 & P8).
-  specialize (H cex_state aempty 0 lt dt cex_ost [] 0 P1 P2 P3 P4 P5 P6 P7 P8).
-  pose proof cex_run as R.
-  destruct (decodeHuffman cex_state aempty 0) as [[[s' out'] w'] err].
-  destruct (flush_ov s' out' w') as [[s2 out2] w2].
-  destruct H as (st' & bs' & ended & C1 & C2 & C3 & C4 & C5 & C6 & C7 & C8 & C9 & C10 & C11 & C12 & C13 & C14 & C15).
-  rewrite R in C14. discriminate.
-Qed.
-
-Theorem decodeHuffman_refine2_statement_false : ~ decodeHuffman_refine2_statement.
-Proof.
-  intros H.
-  destruct (mktrie 15 fixed_lit_lens) as [lt|] eqn:Hlt; [|vm_compute in Hlt; discriminate].
-  destruct (mktrie 15 fixed_dist_lens) as [dt|] eqn:Hdt; [|vm_compute in Hdt; discriminate].
-  destruct (cex_hyps lt dt Hlt Hdt) as (P1 & P2 & P3 & P4 & P5 & P6 & P7 & P8).
-  specialize (H cex_state aempty 0 lt dt cex_ost [] 0 P1 P2 P3 P4 P5 P6 P7 P8).
-  pose proof cex_run as R.
-  destruct (decodeHuffman cex_state aempty 0) as [[[s' out'] w'] err].
-  destruct (flush_ov s' out' w') as [[s2 out2] w2].
-  destruct H as (st' & bs' & ended & C1 & C2 & C3 & C4 & C5 & C6 & C7 & C8 & C9 & C10 & C11 & C12 & C13 & C14 & C15 & C16).
-  rewrite R in C15. discriminate.
-Qed.
+(* the corrected statement of RModel/EngineRefineSpecBlock3.v *)
+Theorem decodeHuffman_refine3 : decodeHuffman_refine3_statement.
+Proof. exact decodeHuffman_refine2_partial. Qed.
 
 Print Assumptions decodeHuffman_refine_gen.
 Print Assumptions decodeHuffman_refine2_partial.
 Print Assumptions decodeHuffman_refine_partial.
-Print Assumptions decodeHuffman_refine_statement_false.
-Print Assumptions decodeHuffman_refine2_statement_false.
+Print Assumptions decodeHuffman_refine3.
